@@ -1,5 +1,5 @@
 """Which properties are claimed, at what level, and why (source of MANIFEST.json)."""
-HOOK_COMMITS = ["afda2b8", "88d2dc4", "acb4ee3", "8205e71", "74de000", "52ac3a2", "54e4b2e", "b997f38", "aafa7fa"]
+HOOK_COMMITS = ["afda2b8", "88d2dc4", "acb4ee3", "8205e71", "74de000", "52ac3a2", "54e4b2e", "b997f38", "aafa7fa", "1c563fd"]
 NOTES = ("Technique: model-based verification with an explicit TLA+ specification (spec/), checked with TLC, bound to the "
          "implementation by conformance checks in both directions. See DESIGN.md.")
 NOT_CLAIMED = {}
@@ -14,7 +14,9 @@ CHECKS = {
         text="Chess.tla states the rules (legality = pseudo-legal and own king not attacked afterwards, independent of the engine's "
              "pin/checker algorithm). TLC enumerates every distinct position within a ply bound of ~40 corner-case seeds (all subsets of "
              "rights/e.p. dropped) and long simulated games; the real generate_moves / is_in_check answers are compared with Legal / "
-             "InCheck as sets (no missing, no illegal, no duplicate). Engine-played games and synthetic placements are validated by TLC "
+             "InCheck as sets (no missing, no illegal, no duplicate). Generated families are enumerated EXHAUSTIVELY: en-passant worlds "
+             "(king x capturing pawn x one/two sliders on the king lines), castling worlds, pin worlds (king x own man x enemy slider on one "
+             "line, optionally a checker) and the check world (king x every enemy man on every square). Engine-played games and synthetic placements are validated by TLC "
              "against ChessTrace.tla.",
         design_ref="DESIGN.md section 5, C01", note=_RULES_NOTE,
         technique="TLA+ rules spec; TLC BFS + simulation replayed into the move generator; TLC trace validation of engine games"),
@@ -63,7 +65,8 @@ CHECKS = {
     "C14": dict(
         text="Eval.tla states the required relations (antisymmetric under side swap, invariant under mirror, bounded by half the search "
              "window, pure). Positions are generated by the specification (random games, seeds, extremal material); the harness evaluates "
-             "p, SwapSide(p), Mirror(p), p on ONE Evaluator in random interleavings; TLC validates the transforms against its own "
+             "p, SwapSide(p), Mirror(p), p on ONE Evaluator in random interleavings, together with near-miss companions (colours exchanged "
+             "in place per piece kind: same colour-blind occupancy, different position); TLC validates the transforms against its own "
              "definitions and the relations on every event (EvalTrace.tla), keeping a memo of all values for purity.",
         design_ref="DESIGN.md section 5, C14",
         note="Numeric content of the evaluation is not specified. Positions sampled; bound = 16383.",
@@ -85,27 +88,34 @@ CHECKS = {
     "C09": dict(
         text="Uci.tla keeps hist = positions of the most recent position command; RepDraw(q) = q occurs at least twice in hist. TLC generates "
              "histories with 0..3 earlier occurrences (reversible-move cycles, shuffles, truncations, several position commands, "
-             "ucinewgame); after every position command the hook asks, for every legal move, the repetition answer the search would give "
+             "ucinewgame, LOOK-ALIKE positions: the same placement with other castling rights / e.p. square reached by rook / king "
+             "round trips and double pushes, A-B-A command sequences); after every position command the hook asks, for every legal move, the repetition answer the search would give "
              "at ply 1; TLC requires equality with RepDraw for every move (UciTrace.tla).",
         design_ref="DESIGN.md section 5, C09", note=_UCI_NOTE + " The hook mirrors search_position (push root) + negamax's ply>0 query.",
         technique="TLA+ protocol spec with game history; TLC-simulated histories; TLC trace validation of repetition answers"),
     "C13": dict(
         text="UciTrace.tla holds memo: (commands since the engine was fresh) -> tokenised output (time/nps removed). Each TLC-generated "
              "script of depth-limited searches is run in three separate processes (three key draws) and once behind a table-filling "
-             "prefix + ucinewgame; all runs are validated in one trace, every go must agree with memo or extend it.",
+             "prefix + ucinewgame; all runs are validated in one trace, every go must agree with memo or extend it. Also: the script "
+             "without its leading position commands, fresh and behind a repetition-history prefix + ucinewgame; and table pressure - one "
+             "game searched to depth 6-7 after every few moves without ucinewgame, in several processes (several key draws).",
         design_ref="DESIGN.md section 5, C13", note=_UCI_NOTE,
         technique="TLA+ protocol spec with output memo; repeated runs of TLC-simulated scripts on the real binary; TLC trace validation"),
     "C16": dict(
         text="Uci.tla: uci -> id lines then uciok; isready -> readyok; unknown / blank lines -> no output; quit and end of input -> exit "
              "status 0. TLC simulates interleavings with position/go, ending by quit or by closing stdin; the real binary is run; "
-             "TLC validates outputs and exit status (UciTrace.tla).",
+             "TLC validates outputs and exit status (UciTrace.tla). Unknown lines include blank / tab-only lines, lines that are not "
+             "valid UTF-8, NUL bytes and very long lines. Random malformed go lines through the hooked handler (GoParse.tla): a parser "
+             "failure is a violation, a different parse is SPEC-DRIFT.",
         design_ref="DESIGN.md section 5, C16", note=_UCI_NOTE,
         technique="TLA+ protocol spec; TLC-simulated scripts run on the real binary; TLC trace validation"),
     "C12": dict(
         text="TimeCtl.tla states the relation a budget must satisfy (FitsClock: <= own clock, strictly below it when any time remains; "
              "OwnClockOnly: a function of side to move, own time, own increment) without pinning the formula. TLC enumerates "
-             "exhaustively all go commands over a grid of boundary values x token orders x both sides; the hooked handler reports what "
-             "the real parser hands to the search; TLC validates both predicates on every event (TimeTrace.tla).",
+             "exhaustively all go commands over a grid of boundary values x token orders x every non-empty subset of the four tokens x both "
+             "sides, with increments RELATIVE to the mover's clock (just below / at / above it), plus random lines beyond the grid; the hooked handler reports what "
+             "the real parser hands to the search; TLC validates both predicates on every event (TimeTrace.tla). The allocation formula and the whole go parser are transcribed (TimeCtl "
+             "ModelBudget, GoParse.tla): differences are SPEC-DRIFT only.",
         design_ref="DESIGN.md section 5, C12",
         note="Trusted: TLC; the capture hook placed right before find_best_move. Exhaustive over the stated grid only.",
         technique="TLA+ relation spec; TLC-enumerated go commands through the real parser (hook); TLC trace validation"),
@@ -114,16 +124,20 @@ CHECKS = {
              "is model-checked on abstract game graphs for every leaf valuation and child order: ResultIsMinimax, TTSound. Conformance "
              "(verdict): for real positions with a finite quiescence tree the harness dumps the game graph and what completed fixed-depth "
              "searches of a fresh engine concluded (score, move, EVERY table entry); TLC computes the unpruned quiescence value and minimax "
-             "from the graph alone and audits root value, move and every cached claim (SearchAudit.tla).",
-        design_ref="DESIGN.md section 5, C05", note=_SEARCH_NOTE,
+             "from the graph alone and audits root value, move and every cached claim (SearchAudit.tla). On positions of every "
+             "game phase (no finiteness restriction) the alpha-beta contract is checked at the root (WindowTrace.tla). Step-level "
+             "binding (no verdict): TLC executes the PlusCal algorithm itself on graphs recorded from real searches and every recorded "
+             "step must match (SearchTrace.tla); killer / history / repetition containers against Heur.tla.",
+        design_ref="DESIGN.md section 5 C05, 11.5, 11.6", note=_SEARCH_NOTE,
         technique="TLA+/PlusCal search spec model-checked by TLC; game-graph dump of real searches audited by TLC (trace validation)"),
     "C06": dict(
         text="Design: Search.tla with a clock process that may expire at any atomic step, one or two interrupted searches before a completed "
              "one: TTSound at all times, ResultIsMinimax, NothingLeftBehind (the pre-repair behaviour StoreOnAbort=TRUE is kept as a "
              "regression model TLC must reject). Conformance: for every node count k = 1..total AND every poll index j (the j-th "
              "should_stop() is the first to answer true) of real searches: interrupted search(es), then a completed one; TLC audits every "
-             "cached claim left behind, every later result against minimax, and the repetition stack length.",
-        design_ref="DESIGN.md section 5, C06", note=_SEARCH_NOTE + " Deadlines are injected through the node/poll-budget hook in SearchTimer::should_stop.",
+             "cached claim left behind, every later result against minimax, and the repetition stack length. Step-level binding "
+             "(no verdict): interrupted + completed searches executed step by step by Search.tla in poll-budget mode (SearchTrace.tla).",
+        design_ref="DESIGN.md section 5 C06, 11.5", note=_SEARCH_NOTE + " Deadlines are injected through the node/poll-budget hook in SearchTimer::should_stop.",
         technique="TLA+/PlusCal search spec with clock process model-checked by TLC; enumeration of every interruption point on the real search, audited by TLC"),
     "C07": dict(
         text="Design: Search.tla, Prompt: at most 2 node entries after the clock expired (1 under a node budget), for every expiry point. "
@@ -137,7 +151,9 @@ CHECKS = {
         text="Design: Search.tla on graphs with mated/stalemated terminals: MateInOnePlayed (depth 1..3), NoAvoidableMateAllowed (depth 2..3) "
              "for every valuation and order. Conformance: candidate positions from engine playouts; TLC recomputes MateInOne / "
              "AllowsMateInOne from ChessRules.tla and validates the answers of completed searches of a fresh engine at depths 1..4 / 2..3 "
-             "(MateTrace.tla); candidates the specification does not confirm are skipped.",
+             "(MateTrace.tla); candidates the specification does not confirm are skipped. Candidates: playouts, synthetic 'won' positions "
+             "(king on the edge, mates by every kind of man incl. pawns arriving on the seventh rank) and 'lost' positions (every move "
+             "loses: ties between lost scores); the candidate filter does not use the engine's check test.",
         design_ref="DESIGN.md section 5, C08", note="Trusted: TLC, ChessRules.tla. Positions sampled.",
         technique="TLA+/PlusCal search spec model-checked by TLC; TLC trace validation of real search answers against the rules spec"),
 }
